@@ -38,6 +38,8 @@ for root, _, files in os.walk(src):
             if cs:
                 cons[q] = cs
         ref["__constructs__"] = cons
+        from bacverif import dispatch
+        ref["__globals__"] = dispatch.global_names(tree)
         out[rel] = ref
 json.dump(out, open(os.path.join(ROOT, "spec", "local_names.json"), "w"), indent=0, sort_keys=True)
 print("reference of %d locals in %d modules written" % (n, len(out)))
